@@ -24,6 +24,10 @@ CHECKS = {
     'C06': dict(level='model_checking', runs=_e1('C06', 'h_e3'), percase=20, deadline=dict(quick=150, thorough=1500),
                 mc_cov=lambda cn: dict(states=cn.get('C06/ref:states', 0), transitions=cn.get('C06/ref:transitions', 0), traces_validated_against_impl=cn.get('C06/ref:transitions', 0),
                                        explanation='states = canonical hashes of the real session objects summed over configurations; every transition is one real xgssvx call judged by the oracles, so every explored trace is executed on the implementation')),
+    'C19': dict(level='model_checking', runs=_e1v('C19', 'h_life', ('ref', 'asan')), percase=10, deadline=dict(quick=200, thorough=1800),
+                mc_cov=lambda cn: dict(states=cn.get('C19/ref:states', 0) + cn.get('C19/asan:states', 0), transitions=cn.get('C19/ref:transitions', 0) + cn.get('C19/asan:transitions', 0),
+                                       traces_validated_against_impl=cn.get('C19/ref:lifecycles', 0) + cn.get('C19/asan:lifecycles', 0),
+                                       explanation='every word of the lifecycle automaton is executed on the real library; transitions = library calls made, traces = complete lifecycles judged at their accepting state')),
     'C07': dict(level='fault_enumeration', runs=_e1('C07', 'h_e2'), percase=5, deadline=dict(quick=150, thorough=1500)),
     'C08': dict(level='fault_enumeration', runs=_e1('C08', 'h_e2'), percase=5, deadline=dict(quick=150, thorough=1500)),
 }
@@ -101,3 +105,7 @@ META['C16'] = dict(engine='E1 small-scope enumerator', design_ref='5/C16', techn
 META['C15'] = dict(engine='E1 small-scope enumerator', design_ref='5/C15', technique='bounded exhaustive enumeration of the ILU option product on small patterns with dense reference oracle',
     text='Full Cartesian product of drop rules x drop tolerances x fill factors x norms x MILU variants x row-permutation option x Trans x orderings x tunings x types on every structurally nonsingular pattern of order <=3 and deviation-1 neighbourhoods of 6x6 bases (zero diagonals and exactly cancelling values included) through xgsisx: returns, 0<=info<=n (n+1 only with ConditionNumber), permutations are bijections, U diagonal finite and non-zero, structure well-formed (repeated U rows allowed), A returned with its original row indices and scaled exactly as equed says, X equals the solve defined by the returned factors, and with dropping disabled and no pivot replaced the complete-LU identity holds.',
     note=_E1_NOTE + ' The workspace / allocation-failure paths of the ILU driver are covered by C07/C08.')
+
+META['C19'] = dict(engine='E3 history explorer', design_ref='5/C19', technique='exhaustive enumeration of all words of the documented lifecycle automaton up to a depth, executed on the real library with an allocation ledger, red zones and ASan/UBSan',
+    text='Pipeline words (create, get_perm_c x4, sp_preorder, xgstrf under library allocation / ample workspace / too-small workspace / size query / single and persistent k-th growth failures, up to three of {xgstrs N, xgstrs T, xgscon, xgsrfs, pivot growth + space query}, optional SamePattern_SameRowPerm refactorization, destroy) and driver words (all three-call sequences over xgssv, xgssvx in all Fact modes / storage modes / query / faults, xgsisx likewise) on six matrices incl. an exactly singular one, fill estimates 1..8 (arrays ending exactly at capacity are counted), 4 types: no sanitizer report, no free of a foreign or freed pointer, red zones intact, and the ledger is empty once the caller has destroyed what it was handed.',
+    note='Uninitialised-value dependence is approximated by the 0xA5 / 0xDD fill plans and bitwise differential checks of C06/C07/C09 (MSan build not used). Known finding F3 (xgstrf/xgsitrf leak on a mid-factorization growth failure) and F8 are reported as KNOWN-FINDING; F1, F2, F7, F18, F26 were repaired by fix: commits.')
